@@ -22,6 +22,18 @@ def shards_for(run: Run) -> list[dict]:
                 "sample_at": 200 * j,
             }
         )
+    # exhaustive stratum: ALL expression trees of depth <= 2 over the core terminals (x all strings over the alphabet up to length 4);
+    # thorough: a seeded sample of the depth-3 trees on top
+    n2 = len(G.core_trees(2))
+    for j in range(16):
+        shards.append({"prop": PROP, "judges": JUDGES, "modes": MODES, "source": "coretrees", "depth": 2, "indices": list(range(n2))[j::16], "seed": seed_int(PROP, run.seed, "ct", j), "cap": 700, "maxlen": 4, "extra_alpha": "abAc", "sample_at": 10**9})
+    if not run.quick:
+        import random as _r
+
+        n3 = len(G.core_trees(3))
+        idx3 = _r.Random(seed_int(PROP, run.seed, "ct3")).sample(range(n2, n3), 20000)
+        for j in range(16):
+            shards.append({"prop": PROP, "judges": JUDGES, "modes": MODES, "source": "coretrees", "depth": 3, "indices": idx3[j::16], "seed": seed_int(PROP, run.seed, "ct3", j), "cap": 400, "maxlen": 4, "extra_alpha": "abAc", "sample_at": 10**9})
     # context matrix without trivia (index range of trivia cfg "none"), stack constructs excluded
     per_cfg = len(G.CONSTRUCTS) * len(G.CONTEXTS) * len(G.MODIFIERS)
     idx = [i for i in range(per_cfg) if (i // (len(G.CONSTRUCTS) * len(G.CONTEXTS))) % len(G.MODIFIERS) in (0, 1)]
@@ -44,7 +56,8 @@ def main(tier: str, seed: int) -> int:
     run_workers("pv.engine", "worker", shards_for(run), timeout_s=run.pick(900, 7200), acc=run.acc)
     return run.finish(
         rule=(
-            "seeded random well-formed grammars over the core operators (1-5 rules, normal/silent) and the no-trivia slice of the "
+            "EXHAUSTIVE: every expression tree of depth <= 2 over 11 core terminals and 11 operators as a rule body (thorough: + 20 000 sampled depth-3 trees), "
+            "each on all strings over its alphabet up to length 4; plus seeded random well-formed grammars over the core operators (1-5 rules, normal/silent) and the no-trivia slice of the "
             "construct x context matrix; per grammar ALL strings over its own alphabet up to the exhaustive length recorded in the "
             "counters, plus derivation-guided longer inputs; every case parsed in 4 modes and compared with the reference PEG evaluator. "
             "distinct_nontrivial = distinct (grammar, input) cases judged where the reference matches or the input is non-empty."
